@@ -39,9 +39,10 @@ Next == /\ DynExact(s) /\ Len(h) < 3 * MaxLen
            \/ (\E x \in I5 : s.lv[x] = "recycled") /\ Step(7, 0, 0, Purge(s, {x \in I5 : s.lv[x] = "recycled"}))
 Spec == Init /\ [][Next]_<<s, h>>
 
-Pad(q) == q \o [i \in 1..(15 - Len(q)) |-> 0]
+Pad(q) == q \o [i \in 1..(24 - Len(q)) |-> 0]
 Tup(tag) == LET p == Pad(h) IN
-  <<tag, Len(h) \div 3, p[1], p[2], p[3], p[4], p[5], p[6], p[7], p[8], p[9], p[10], p[11], p[12], p[13], p[14], p[15]>>
+  <<tag, Len(h) \div 3, p[1], p[2], p[3], p[4], p[5], p[6], p[7], p[8], p[9], p[10], p[11], p[12], p[13], p[14], p[15],
+       p[16], p[17], p[18], p[19], p[20], p[21], p[22], p[23], p[24]>>
 Fold == LET RECURSIVE G(_) G(i) == IF i = 0 THEN 0 ELSE (h[i] * (i + 7) + G(i - 1)) % 100003 IN G(Len(h))
 Soft == /\ DynExact(s) \/ PrintT(Tup("CEX"))
         /\ (Len(h) = 3 * MaxLen /\ DynExact(s) /\ Fold % Sample = 0) => PrintT(Tup("BEH"))
